@@ -29,6 +29,7 @@ type frtCloseSc struct {
 	NClose   int    `json:"n_close"`
 	NoProv   bool   `json:"no_providers"`
 	OpDuring bool   `json:"op_during"`
+	Triggers int    `json:"triggers,omitempty"` // TriggerRefresh calls (contexts that never end) waiting when the first Close call is made
 }
 
 // slowCrawler takes CrawlMs of virtual time per crawl and honours its context.
@@ -50,7 +51,7 @@ func TestVerif_C14_FullRT(t *testing.T) {
 	verifsim.RunCheck(t, verifsim.Check[frtCloseSc]{
 		Property: "C14", Part: "fullrt",
 		Rule: "rapid: NewFullRT with an optional injected constructor fault (failing event-bus subscription, failing provider-manager option, failing DHT option) and a crawler that takes 0-5000 ms of virtual time per crawl; Close at a drawn " +
-			"instant (before, during or after the first crawl), called 1-3 times, optionally with a GetClosestPeers call in flight; oracle: census by id - nothing the constructor started survives Close, repeated Close returns, the subscription is closed, " +
+			"instant (before, during or after the first crawl), called 1-3 times, optionally with a GetClosestPeers call in flight and 1-8 TriggerRefresh calls waiting for the crawler loop; oracle: the waiting calls return once Close has, census by id - nothing the constructor started survives Close, repeated Close returns, the subscription is closed, " +
 			"a failed constructor leaves no goroutine and no subscription; non-trivial = Close during a crawl or a constructor fault",
 		Gen: func(t *rapid.T) frtCloseSc {
 			return frtCloseSc{
@@ -60,6 +61,7 @@ func TestVerif_C14_FullRT(t *testing.T) {
 				NClose:   rapid.IntRange(1, 3).Draw(t, "nClose"),
 				NoProv:   rapid.IntRange(0, 3).Draw(t, "noProv") == 0,
 				OpDuring: rapid.Bool().Draw(t, "opDuring"),
+				Triggers: rapid.SampledFrom([]int{0, 0, 1, 2, 8}).Draw(t, "triggers"),
 			}
 		},
 		Run: func(t *testing.T, sc frtCloseSc) (res verifsim.Result) {
@@ -117,6 +119,15 @@ func TestVerif_C14_FullRT(t *testing.T) {
 					go func() { d.GetClosestPeers(context.Background(), "key") }()
 				}
 				time.Sleep(time.Duration(sc.CloseMs) * time.Millisecond)
+				var trig []chan struct{}
+				for i := 0; i < sc.Triggers; i++ {
+					c := make(chan struct{})
+					trig = append(trig, c)
+					go func() { defer close(c); _ = d.TriggerRefresh(context.Background()) }()
+				}
+				if len(trig) > 0 {
+					verifsim.Quiesce() // (taken by an idle crawler loop, or waiting for a busy one)
+				}
 				for i := 0; i < sc.NClose; i++ {
 					done := make(chan struct{})
 					go func() { defer close(done); d.Close() }()
@@ -125,6 +136,17 @@ func TestVerif_C14_FullRT(t *testing.T) {
 					case <-time.After(10 * time.Minute):
 						res.Fail("close-returns", "C14/fullrt/close-hangs", "Close call %d did not return within 10 min of virtual time", i)
 						return
+					}
+					if i == 0 {
+						verifsim.Quiesce()
+						for j, c := range trig {
+							select {
+							case <-c:
+							default:
+								res.Fail("operations-in-flight-return", "C14/fullrt/operation-hangs-after-close", "TriggerRefresh call %d of %d, waiting when Close was called, has not returned after Close did", j+1, len(trig))
+								return
+							}
+						}
 					}
 					if i == 0 && leftovers("after Close returned") {
 						return
@@ -136,6 +158,9 @@ func TestVerif_C14_FullRT(t *testing.T) {
 			}
 			res.NonTrivial = sc.Fault != "" || (sc.CloseMs > 0 && sc.CloseMs < sc.CrawlMs)
 			res.Class("fault-" + sc.Fault)
+			if sc.Fault == "" && sc.Triggers > 0 && sc.CloseMs > 0 && sc.CloseMs < sc.CrawlMs {
+				res.Class("refresh-requests-waiting-at-close")
+			}
 			return
 		},
 	})
